@@ -389,6 +389,12 @@ class EffectDomain(DefaultDomain):
     def load_attr(self, chain, st, fr):
         if all(isinstance(c, str) for c in chain):
             d = ".".join(chain)
+            if len(chain) == 2 and chain[1] in ("__traceback__", "__class__"):
+                v_ = st.get(fr.local(chain[0]), None)
+                if isinstance(v_, tuple) and v_[:1] == ("exc",):
+                    return ("tbof", v_) if chain[1] == "__traceback__" else ("typeof", v_)
+            if len(chain) >= 3 and fr.selfname and chain[0] == fr.selfname and st.has("self." + ".".join(chain[1:])):
+                return st.get("self." + ".".join(chain[1:]))   # mutable state kept under a deeper path of self wins over the environment
             if d in self.attrs:
                 return self.attrs[d]
             # attribute of a local / attribute that holds a wrapped object
@@ -405,17 +411,19 @@ class EffectDomain(DefaultDomain):
     def with_enter(self, interp, item, value, st, fr):
         if isinstance(value, tuple) and value[:1] == ("wobj",):
             log = st.get("ev.calls", ())
-            depth = st.get("ev.with." + value[1], 0)
-            return [val(NONE, st.set("ev.calls", log + ((f"{value[1]}.__enter__", (), (), "ok"),)).set("ev.with." + value[1], depth + 1))]
+            where = f"ev.within.{item.context_expr.lineno}:{item.context_expr.col_offset}"
+            # `with obj as x`: x is what obj.__enter__() returns -- the object itself where the domain says so
+            got = value if getattr(self, "enter_returns_self", False) else NONE
+            return [val(got, st.set("ev.calls", log + ((f"{value[1]}.__enter__", (), (), "ok"),)).set(where, value[1]))]
         return None
 
     def with_exit(self, interp, stmt, kind, payload, st, fr):
         for item in reversed(stmt.items):
-            d_ = dotted(item.context_expr)
-            v = self.attrs.get(d_) if d_ else None
-            if isinstance(v, tuple) and v[:1] == ("wobj",) and st.get("ev.with." + v[1], 0) > 0:
+            where = f"ev.within.{item.context_expr.lineno}:{item.context_expr.col_offset}"
+            oid = st.get(where, None)
+            if oid is not None:
                 log = st.get("ev.calls", ())
-                st = st.set("ev.calls", log + ((f"{v[1]}.__exit__", (), (), "ok"),)).set("ev.with." + v[1], st.get("ev.with." + v[1]) - 1)
+                st = st.set("ev.calls", log + ((f"{oid}.__exit__", (), (), "ok"),)).set(where, None)
         return st
 
     def store_attr(self, key, value, st, fr):
@@ -725,6 +733,23 @@ class EffectDomain(DefaultDomain):
                     s2 = s2.set("ev.alloc", n_ + 1)
                 out.append(val(obj, s2))
             return out
+        if d == "sys.exc_info" and not call.args and d not in self.results:
+            # the exception being handled in this frame: (type, value, traceback) tied to that exception
+            e_ = st.get(fr.local("<handling>"), None)
+            if e_ is not None:
+                return [val(exc_info_of(e_), st)]
+        if d == "type" and len(call.args) == 1 and not call.keywords:
+            out = []
+            known = True
+            for r in interp.eval(call.args[0], st, fr):
+                if r.kind == "exc":
+                    out.append(r)
+                elif isinstance(r.value, tuple) and r.value[:1] == ("exc",):
+                    out.append(val(("typeof", r.value), r.state))
+                else:
+                    known = False
+            if known and out:
+                return out
         if d == "bool" and len(call.args) == 1 and not call.keywords:
             out = []
             for r in interp.eval(call.args[0], st, fr):
@@ -791,18 +816,17 @@ class EffectDomain(DefaultDomain):
                 if r.kind == "exc":
                     out.append(r)
                     continue
-                s2 = r.state
-                if self.track(d):
-                    entry = (d, tuple(r.value[: len(pos)]), tuple((k.arg or "**", v) for k, v in zip(kws, r.value[len(pos):])), "ok")
-                    log = s2.get("ev.calls", ())
-                    if len(log) < self.log_cap:
-                        s2 = s2.set("ev.calls", log + (entry,))
-                    else:
-                        s2 = s2.set("ev.calls.overflow", 1)
+                def logged(tag, r=r):
+                    s2 = r.state
+                    if self.track(d):
+                        entry = (d, tuple(r.value[: len(pos)]), tuple((k.arg or "**", v) for k, v in zip(kws, r.value[len(pos):])), tag)
+                        log = s2.get("ev.calls", ())
+                        s2 = s2.set("ev.calls", log + (entry,)) if len(log) < self.log_cap else s2.set("ev.calls.overflow", 1)
+                    return s2
                 for v in self.results.get(d, [TOP]):
-                    out.append(val(v, s2))
+                    out.append(val(v, logged("ok")))
                 for e in self.raises.get(d, []):
-                    out.append(exc(e, s2))
+                    out.append(exc(e, logged(e[1] if isinstance(e, tuple) and len(e) > 1 and isinstance(e[1], str) else "raised")))
             return out
         if self.inline:
             hit = interp.auto_inline(call, st, fr, self.classes)
@@ -832,6 +856,11 @@ class EffectDomain(DefaultDomain):
             name = norm(stmt.exc.func if isinstance(stmt.exc, ast.Call) else stmt.exc).split(".")[-1]
             return ("exc", name)
         return ("exc", "?")
+
+
+def exc_info_of(e):
+    """What sys.exc_info() returns while the abstract exception ``e`` is being handled."""
+    return ("tuple", ("typeof", e), e, ("tbof", e))
 
 
 def run(ctx, dom, func, receiver, argvals=None, state=None, depth=5):
